@@ -209,9 +209,14 @@ class Ctx(Partial):
         if len(lines) > MAX_VIOLATION_LINES:
             print("  ... and %d more distinct signatures" % (len(lines) - MAX_VIOLATION_LINES))
         self.summary()
-        if harness_err:
+        if harness_err and not lines:
+            # nothing the check reported could be reproduced: the machinery is at fault, not the library
             print("HARNESS-ERROR property=%s %s" % (self.pid, harness_err), file=sys.stderr)
             return 2
+        if harness_err:
+            # some violations were confirmed by replay (reported above); others were not reproducible in a
+            # second execution in this process (e.g. a defect that depends on process-wide cached state)
+            print("UNCONFIRMED property=%s %s" % (self.pid, harness_err), file=sys.stderr)
         return 1 if lines else 0
 
     def summary(self):
